@@ -239,6 +239,18 @@ EXTRA["C13"] += CODEC
 EXTRA["C09"] = CODEC
 EXTRA["C04"] = CAPACITY
 EXTRA["C10"] += CAPACITY
+SIGNEXT = " (sign-extend) no quantity decoded from bytes is assembled in a signed type it can fill and then widened (a stored step never decodes as a negative number)."
+EXTRA["C06"] = SIGNEXT
+EXTRA["C10"] += SIGNEXT + " The array-bound rule also covers indexes that count the iterations of a loop no exit of which compares a counter with a bound."
+EXTRA["C07"] = " (value-after-error) under Unmarshal no pointer or interface result of a (value, error) call is used on the edge where that error is non-nil."
+EXTRA["C16"] += " (elt-type) every construction of the element encoder in package array starts from an element value, not from the static element type."
+EXTRA["C17"] = " (fields) every protobuf field of the message types is in the analysed set; a field added to the serialized form leaves the obligation undecided. (options) DedupValue keeps its documented default."
+EXTRA["C18"] += " (options) the option normalisation leaves DedupValue true whenever the caller did not set it (rule shared with C13)."
+EXTRA["C19"] = CAPACITY
+EXTRA["C02"] += CAPACITY
+EXTRA["C03"] += CAPACITY
+EXTRA["C09"] += CAPACITY
+EXTRA["C01"] += " (narrow) every narrowing conversion on the construction path is bounded (rule shared with C08)."
 for _k, _v in EXTRA.items():
     CLAIMS[_k]["text"] = CLAIMS[_k]["text"] + _v
 
